@@ -330,6 +330,9 @@ func (m *Machine) callBuiltin(fr *frame, b *ssa.Builtin, args []Value, c *ssa.Ca
 			}
 			return m.TT.BVConst(64, uint64(len(x.C.Kids)))
 		case ChanV:
+			if _, st, ok := m.chanState(x); ok {
+				return m.TT.BVConst(64, uint64(len(st.items)))
+			}
 			return m.TT.BVConst(64, 0)
 		}
 	case "cap":
@@ -341,6 +344,9 @@ func (m *Machine) callBuiltin(fr *frame, b *ssa.Builtin, args []Value, c *ssa.Ca
 		case PtrV:
 			return m.TT.BVConst(64, uint64(len(x.C.Kids)))
 		case ChanV:
+			if _, st, ok := m.chanState(x); ok {
+				return m.TT.BVConst(64, uint64(st.cap))
+			}
 			return m.TT.BVConst(64, 0)
 		}
 	case "append":
@@ -394,6 +400,10 @@ func (m *Machine) callBuiltin(fr *frame, b *ssa.Builtin, args []Value, c *ssa.Ca
 		}
 	case "close":
 		if m.goAsNoop() {
+			return nil
+		}
+		if ch, st, ok := m.chanState(args[0]); ok {
+			m.storeCell(ch.C, chanState{items: st.items, cap: st.cap, closed: true})
 			return nil
 		}
 	case "ssa:wrapnilchk":
